@@ -12,6 +12,7 @@ import GqlProofs.ValSpec.IntrospectionLinks
 import GqlProofs.ValSpec.PossibleSpreads
 import GqlProofs.ValSpec.UnusedFragments
 import GqlProofs.ValSpec.VarRules
+import GqlProofs.ValSpec.VarPosition
 import GqlProofs.Validate.OverlapSound
 import GqlProofs.Props.C18
 import GqlProofs.Validate.OverlapWitness
@@ -1053,6 +1054,146 @@ example : Spec.variableUniqueness docVarTwice = false ∧ constDefaults docVarTw
 #print axioms C08_NoUnusedVariables
 end C08
 
+/-! ## VariablesInAllowedPosition -/
+section C08
+open Gql Gql.Validate Gql.Validate.Rules VarPositionWitness
+
+/-- §5.8.5, rule-exact — VariablesInAllowedPosition reports nothing iff every variable usage in the
+    scope of every operation is allowed WHEN THE DEFAULT VALUE OF THE LOCATION IS IGNORED
+    (`hasLocationDefaultValue = false`; the rule never reads it: recorded finding) -/
+theorem C08_VariablesInAllowedPosition_iff (s : Schema) (d : QueryDoc)
+    (hwp : Spec.wellParented s d = true) (hu : Spec.fragmentNameUniqueness d = true)
+    (hcd : constDefaults d = true) (hs : inputPositionsPlain s = true) (hn : variableTypesNamed d = true) :
+    validate [variablesInAllowedPosition] s d = .ok [] ↔
+      (d.ops.all fun op => (Spec.scopeUses s d op).all fun u =>
+        match Spec.varDefByName op u.name, u.loc with
+        | some v, some lt => Spec.isVariableUsageAllowed v lt false
+        | _, _ => true) = true := by
+  obtain ⟨evs, hw⟩ := walkDoc_isSome s.view d
+  unfold variablesInAllowedPosition
+  rw [validate_stateless_nil s d _ _ evs hw]
+  exact variablesInAllowedPosition_iff s d evs hw hwp hu hcd hs hn
+
+/-- §5.8.5 — under the same hypotheses, when no variable usage in scope sits at a location with a
+    default value, VariablesInAllowedPosition reports nothing iff the specification predicate holds -/
+theorem C08_VariablesInAllowedPosition (s : Schema) (d : QueryDoc)
+    (hwp : Spec.wellParented s d = true) (hu : Spec.fragmentNameUniqueness d = true)
+    (hcd : constDefaults d = true) (hs : inputPositionsPlain s = true) (hn : variableTypesNamed d = true)
+    (hld : (d.ops.all fun op => (Spec.scopeUses s d op).all fun u => !u.locDefault) = true) :
+    validate [variablesInAllowedPosition] s d = .ok [] ↔ Spec.allVariableUsagesAllowed s d = true :=
+  (C08_VariablesInAllowedPosition_iff s d hwp hu hcd hs hn).trans (ignoring_iff_allVariableUsagesAllowed s d hld)
+
+/-- §5.8.5 — the same under the weakest form of the extra hypothesis: every usage at a location
+    with a default value is allowed without the help of that default -/
+theorem C08_VariablesInAllowedPosition_harmless (s : Schema) (d : QueryDoc)
+    (hwp : Spec.wellParented s d = true) (hu : Spec.fragmentNameUniqueness d = true)
+    (hcd : constDefaults d = true) (hs : inputPositionsPlain s = true) (hn : variableTypesNamed d = true)
+    (hld : defaultedLocationsHarmless s d = true) :
+    validate [variablesInAllowedPosition] s d = .ok [] ↔ Spec.allVariableUsagesAllowed s d = true :=
+  (C08_VariablesInAllowedPosition_iff s d hwp hu hcd hs hn).trans (ignoring_iff_allVariableUsagesAllowed' s d hld)
+
+/-- §5.8.5, the direction that needs no hypothesis on location defaults: a document the rule
+    accepts satisfies the specification predicate (what the specification rejects, the rule reports) -/
+theorem C08_VariablesInAllowedPosition_complete (s : Schema) (d : QueryDoc)
+    (hwp : Spec.wellParented s d = true) (hu : Spec.fragmentNameUniqueness d = true)
+    (hcd : constDefaults d = true) (hs : inputPositionsPlain s = true) (hn : variableTypesNamed d = true)
+    (h : validate [variablesInAllowedPosition] s d = .ok []) : Spec.allVariableUsagesAllowed s d = true :=
+  allVariableUsagesAllowed_of_ignoring s d ((C08_VariablesInAllowedPosition_iff s d hwp hu hcd hs hn).1 h)
+
+/-- the recorded finding as a theorem: `type Q { f(r: Int! = 5): Int }`, `query($v: Int) { f(r: $v) }` —
+    every hypothesis of `C08_VariablesInAllowedPosition_iff` holds, the specification allows the
+    usage (the location has a default value), the rule reports it -/
+theorem C08_VariablesInAllowedPosition_counterexample_location_default :
+    Spec.wellParented schemaLocDefault docNullable = true ∧ Spec.fragmentNameUniqueness docNullable = true ∧
+    constDefaults docNullable = true ∧ inputPositionsPlain schemaLocDefault = true ∧
+    variableTypesNamed docNullable = true ∧
+    Spec.allVariableUsagesAllowed schemaLocDefault docNullable = true ∧
+    validate [variablesInAllowedPosition] schemaLocDefault docNullable ≠ .ok [] ∧
+    noUsageAtDefaultedLocation schemaLocDefault docNullable = false := by
+  decide
+
+/-- non-vacuity: all hypotheses of `C08_VariablesInAllowedPosition` hold together, both sides true
+    (`query($v: Int) { f(r: $v) }` against `f(r: Int): Int`) … -/
+example : Spec.wellParented schemaPlain docNullable = true ∧ Spec.fragmentNameUniqueness docNullable = true ∧
+    constDefaults docNullable = true ∧ inputPositionsPlain schemaPlain = true ∧ variableTypesNamed docNullable = true ∧
+    noUsageAtDefaultedLocation schemaPlain docNullable = true ∧
+    validate [variablesInAllowedPosition] schemaPlain docNullable = .ok [] ∧
+    Spec.allVariableUsagesAllowed schemaPlain docNullable = true := by decide
+
+/-- … and both sides false (`query($v: Int!) { f(r: $v) }` against `f(r: [Int]): Int`) -/
+example : Spec.wellParented schemaListArg docNonNull = true ∧ inputPositionsPlain schemaListArg = true ∧
+    noUsageAtDefaultedLocation schemaListArg docNonNull = true ∧
+    validate [variablesInAllowedPosition] schemaListArg docNonNull ≠ .ok [] ∧
+    Spec.allVariableUsagesAllowed schemaListArg docNonNull = false := by decide
+
+/-- with a non-null variable the location default does not matter: both sides accept
+    (`defaultedLocationsHarmless` holds although `noUsageAtDefaultedLocation` does not) -/
+example : defaultedLocationsHarmless schemaLocDefault docNonNull = true ∧
+    noUsageAtDefaultedLocation schemaLocDefault docNonNull = false ∧ validate [variablesInAllowedPosition] schemaLocDefault docNonNull = .ok [] ∧
+    Spec.allVariableUsagesAllowed schemaLocDefault docNonNull = true := by decide
+
+/-- `inputPositionsPlain_of_closed` is not vacuous: the schema of the finding is closed and its scalars carry no fields -/
+example : Gql.Spec.Closed schemaLocDefault ∧
+    (∀ p ∈ schemaLocDefault.types, p.2.kind = .scalar ∨ p.2.kind = .enum → p.2.fields = []) := by
+  refine ⟨⟨by decide, by decide, by decide, by decide, by decide, by decide, by decide, ⟨?_, ?_, ?_⟩,
+    by decide, by decide⟩, by decide⟩
+  · intro n h
+    cases h
+    decide
+  · intro n h
+    cases h
+  · intro n h
+    cases h
+
+/-- `inputPositionsPlain` is needed: with an OBJECT type as argument type the walker types the
+    fields of the literal from `Definition.Fields`, the specification gives them no location type —
+    the rule reports `{x: $v}`, the predicate holds; all other hypotheses hold -/
+example : inputPositionsPlain schemaObjectArg = false ∧
+    Spec.wellParented schemaObjectArg docObjectArg = true ∧ Spec.fragmentNameUniqueness docObjectArg = true ∧
+    constDefaults docObjectArg = true ∧ variableTypesNamed docObjectArg = true ∧
+    validate [variablesInAllowedPosition] schemaObjectArg docObjectArg ≠ .ok [] ∧
+    usagesAllowedIgnoringLocationDefault schemaObjectArg docObjectArg = true := by decide
+
+/-- `variableTypesNamed` is needed: a variable of the named type with the empty name passes
+    `IsCompatible` at a list location — the rule is silent, the predicate fails -/
+example : variableTypesNamed docEmptyTypeName = false ∧
+    Spec.wellParented schemaListArg docEmptyTypeName = true ∧ Spec.fragmentNameUniqueness docEmptyTypeName = true ∧
+    constDefaults docEmptyTypeName = true ∧ inputPositionsPlain schemaListArg = true ∧
+    validate [variablesInAllowedPosition] schemaListArg docEmptyTypeName = .ok [] ∧
+    usagesAllowedIgnoringLocationDefault schemaListArg docEmptyTypeName = false := by decide
+
+/-- `constDefaults` is needed: the walker judges a variable written inside a default value, the
+    specification does not look there -/
+example : constDefaults docVarInDefault = false ∧
+    Spec.wellParented schemaPlain docVarInDefault = true ∧ Spec.fragmentNameUniqueness docVarInDefault = true ∧
+    inputPositionsPlain schemaPlain = true ∧ variableTypesNamed docVarInDefault = true ∧
+    validate [variablesInAllowedPosition] schemaPlain docVarInDefault ≠ .ok [] ∧
+    usagesAllowedIgnoringLocationDefault schemaPlain docVarInDefault = true := by decide
+
+/-- `Spec.fragmentNameUniqueness` is needed: of two definitions of the same name (here at the same
+    position) the walker follows the first, `Spec.opFragments` takes both -/
+example : Spec.fragmentNameUniqueness docTwoFragments = false ∧
+    Spec.wellParented schemaPlain docTwoFragments = true ∧ constDefaults docTwoFragments = true ∧
+    inputPositionsPlain schemaPlain = true ∧ variableTypesNamed docTwoFragments = true ∧
+    validate [variablesInAllowedPosition] schemaPlain docTwoFragments = .ok [] ∧
+    usagesAllowedIgnoringLocationDefault schemaPlain docTwoFragments = false := by decide +kernel
+
+/-- `Spec.wellParented` is needed: on an input object used as a parent type the walker finds the
+    "field" and its argument definitions, the specification no field definition -/
+example : Spec.wellParented schemaInputParent docInputParent = false ∧
+    Spec.fragmentNameUniqueness docInputParent = true ∧ constDefaults docInputParent = true ∧
+    inputPositionsPlain schemaInputParent = true ∧ variableTypesNamed docInputParent = true ∧
+    validate [variablesInAllowedPosition] schemaInputParent docInputParent ≠ .ok [] ∧
+    usagesAllowedIgnoringLocationDefault schemaInputParent docInputParent = true := by decide
+
+#print axioms C08_VariablesInAllowedPosition_iff
+#print axioms C08_VariablesInAllowedPosition
+#print axioms C08_VariablesInAllowedPosition_harmless
+#print axioms C08_VariablesInAllowedPosition_complete
+#print axioms C08_VariablesInAllowedPosition_counterexample_location_default
+
+end C08
+
 /-! ## Capstone: the rules with a proved equivalence, run together -/
 section C08
 open Gql Gql.Validate Gql.Validate.Rules
@@ -1080,22 +1221,23 @@ theorem C08_rule_list_silent_iff (rs : List Rule) (s : Schema) (d : QueryDoc) (h
     cases this
 
 /-- the default rules with a proved equivalence, in default order: all but
-    OverlappingFieldsCanBeMerged, ValuesOfCorrectType and VariablesInAllowedPosition -/
+    OverlappingFieldsCanBeMerged and ValuesOfCorrectType -/
 def c08Rules : List Rule :=
   [ fieldsOnCorrectType, fragmentsOnCompositeTypes, knownArgumentNames, knownDirectives, knownFragmentNames,
     knownRootType, knownTypeNames, loneAnonymousOperation, maxIntrospectionDepth, noFragmentCycles,
     noUndefinedVariables, noUnusedFragments, noUnusedVariables, possibleFragmentSpreads, providedRequiredArguments,
     scalarLeafs, singleFieldSubscriptions, uniqueArgumentNames, uniqueDirectivesPerLocation, uniqueFragmentNames,
-    uniqueInputFieldNames, uniqueOperationNames, uniqueVariableNames, variablesAreInputTypes ]
+    uniqueInputFieldNames, uniqueOperationNames, uniqueVariableNames, variablesAreInputTypes,
+    variablesInAllowedPosition ]
 
 /-- the specification predicates that are NOT compared by the capstone (their rules have no
     equivalence theorem in `c08Rules`) -/
-def c08Uncovered : List String := ["fieldSelectionMerging", "valuesOfCorrectType", "allVariableUsagesAllowed"]
+def c08Uncovered : List String := ["fieldSelectionMerging", "valuesOfCorrectType"]
 
-/-- `c08Rules` is the default rule list without the three rules named above, in the same order -/
+/-- `c08Rules` is the default rule list without the two rules named above, in the same order -/
 theorem C08_rules_are_default_rules :
     c08Rules.map (·.name) = (defaultRules.map (·.name)).filter fun n =>
-      !([str "OverlappingFieldsCanBeMerged", str "ValuesOfCorrectType", str "VariablesInAllowedPosition"].contains n) := by
+      !([str "OverlappingFieldsCanBeMerged", str "ValuesOfCorrectType"].contains n) := by
   decide
 
 /-- hypotheses of the capstone that are not specification predicates themselves: the shape of
@@ -1121,11 +1263,16 @@ structure C08Hyps (s : Schema) (d : QueryDoc) : Prop where
   selectRoot : subscriptionsSelectRoot s d = true
   /-- collected root fields with the same response key have the same field name -/
   rootKeys : rootKeysConsistent s d = true
+  /-- argument and input-field types resolve to input objects or to definitions without fields (loaded schemas) -/
+  inputPositions : inputPositionsPlain s = true
+  /-- the recorded finding about VariablesInAllowedPosition is not triggered: every variable usage at
+      a location WITH a default value is allowed even without that default -/
+  defaultedLocations : defaultedLocationsHarmless s d = true
 
-/-- **C08, partial verdict**: for the 24 default rules with a proved equivalence, run together
-    (`validate c08Rules`), the validator accepts exactly the documents that satisfy the 25
+/-- **C08, partial verdict**: for the 25 default rules with a proved equivalence, run together
+    (`validate c08Rules`), the validator accepts exactly the documents that satisfy the 26
     specification predicates these rules stand for — all of `Spec.specVerdicts` except field
-    merging (§5.3.2), values of correct type (§5.6.1) and allowed variable positions (§5.8.5).
+    merging (§5.3.2) and values of correct type (§5.6.1).
     The masked forms of the single-rule theorems need no hypothesis here: their prerequisites are
     members of the same conjunction. -/
 theorem C08_default_rules_iff_spec_partial (s : Schema) (d : QueryDoc) (h : C08Hyps s d) :
@@ -1142,13 +1289,13 @@ theorem C08_default_rules_iff_spec_partial (s : Schema) (d : QueryDoc) (h : C08H
      Spec.directivesAreDefined s d = true ∧ Spec.directivesInValidLocations s d = true ∧
      Spec.directivesUniquePerLocation s d = true ∧ Spec.variableUniqueness d = true ∧
      Spec.variablesAreInputTypes s d = true ∧ Spec.allVariableUsesDefined s d = true ∧
-     Spec.allVariablesUsed s d = true ∧ Spec.maxIntrospectionDepth d = true) := by
+     Spec.allVariablesUsed s d = true ∧ Spec.allVariableUsagesAllowed s d = true ∧ Spec.maxIntrospectionDepth d = true) := by
     simp only [Spec.specVerdicts, c08Uncovered]
     simp [List.filter, List.all]
   rw [hspec, C08_rule_list_silent_iff c08Rules s d (by decide)]
   simp only [c08Rules, List.mem_cons, List.not_mem_nil, or_false, forall_eq_or_imp, forall_eq]
   constructor
-  · rintro ⟨r1, r2, r3, r4, r5, r6, r7, r8, r9, r10, r11, r12, r13, r14, r15, r16, r17, r18, r19, r20, r21, r22, r23, r24⟩
+  · rintro ⟨r1, r2, r3, r4, r5, r6, r7, r8, r9, r10, r11, r12, r13, r14, r15, r16, r17, r18, r19, r20, r21, r22, r23, r24, r25⟩
     have lone := (C08_LoneAnonymousOperation s d).1 r8
     have opNames := (C08_UniqueOperationNames s d lone).1 r22
     have varUniq := (C08_UniqueVariableNames s d).1 r23
@@ -1176,9 +1323,11 @@ theorem C08_default_rules_iff_spec_partial (s : Schema) (d : QueryDoc) (h : C08H
       varUniq, types.2,
       (C08_NoUndefinedVariables s d fragUniq h.constDefaults).1 r11,
       (C08_NoUnusedVariables s d fragUniq h.constDefaults varUniq).1 r13,
+      (C08_VariablesInAllowedPosition_harmless s d h.wellParented fragUniq h.constDefaults h.inputPositions
+        (variableTypesNamed_of_exist s d h.noEmptyTypeName (variablesAreInputTypes_exist s d types.2)) h.defaultedLocations).1 r25,
       (C08_MaxIntrospectionDepth s d cycles).1 r9⟩
   · rintro ⟨opNames, lone, root1, rootType, fields, leafs, argNames, argUniq, reqArgs, fragUniq, typeEx, fragComp,
-      fragsUsed, spreadsDef, cycles, possible, inputUniq, dirsDef, dirsLoc, dirsUniq, varUniq, varTypes, varsDef, varsUsed, depth⟩
+      fragsUsed, spreadsDef, cycles, possible, inputUniq, dirsDef, dirsLoc, dirsUniq, varUniq, varTypes, varsDef, varsUsed, varsAllowed, depth⟩
     have types := (C08_KnownTypeNames_VariablesAreInputTypes s d).2 ⟨typeEx, varTypes⟩
     exact ⟨(C08_FieldsOnCorrectType s d h.wellParented).2 fields,
       (C08_FragmentsOnCompositeTypes s d h.noEmptyTypeName).2 fragComp,
@@ -1203,7 +1352,9 @@ theorem C08_default_rules_iff_spec_partial (s : Schema) (d : QueryDoc) (h : C08H
       (C08_UniqueInputFieldNames s d h.valuesShaped).2 inputUniq,
       (C08_UniqueOperationNames s d lone).2 opNames,
       (C08_UniqueVariableNames s d).2 varUniq,
-      types.2⟩
+      types.2,
+      (C08_VariablesInAllowedPosition_harmless s d h.wellParented fragUniq h.constDefaults h.inputPositions
+        (variableTypesNamed_of_exist s d h.noEmptyTypeName (variablesAreInputTypes_exist s d varTypes)) h.defaultedLocations).2 varsAllowed⟩
 
 #print axioms C08_rule_list_silent_iff
 #print axioms C08_rules_are_default_rules
